@@ -9,6 +9,7 @@ FO = "proof { field_obeys(); } broadcast use field_axioms;"
 def overlay(o):
     if "src/composer/bits.rs" not in o.files:
         _load("composer_bits_select.py").overlay(o)
+    o.spec_module("bits_specs")
     o.spec_module("range_specs")
     r = o.file("src/composer/range.rs")
     f = r.fn("Composer::range_check_even")
@@ -78,8 +79,12 @@ let ghost cs0 = constraints@;""")
     # ---- recompose_bits (host-side helper)
     b = o.file("src/composer/bits.rs")
     f = b.fn("recompose_bits")
-    f.verus("composer.recompose_bits", ret="r", requires=["start <= end <= 256"], ensures=["true"], attrs=["#[verifier::loop_isolation(false)]"])
-    f.loop(0, invariant=["true"])
+    f.verus("composer.recompose_bits", ret="r", requires=["start <= end <= 256"],
+            ensures=["cv(r) == md(bits_val(bits@, start as int, end as int))"], attrs=["#[verifier::loop_isolation(false)]"])
+    f.loop_iter_name(0, "it")
+    f.loop(0, invariant=["cv(value) == md(bits_val(bits@, end - it.index@, end as int))", "0 <= it.index@ <= end - start"])
+    f.before("value *= two", "proof { lemma_recompose_step(cv(value), bits@, i as int, end as int); assert(i == end - 1 - it.index@); }")
+    f.before("let mut value", "proof { lemma_md_small(0); }")
     f.at_body_start(FO)
     # ---- range_check: even -> chain; odd -> lower/top split
     f = r.fn("Composer::range_check")
